@@ -23,7 +23,8 @@ def run(patch, props=None, repo="/repo"):
             r = subprocess.run(["patch", "-p1", "-s", "-i", os.path.abspath(patch)], cwd=root, capture_output=True, text=True)
             if r.returncode != 0:
                 return {"error": "patch failed: " + r.stdout + r.stderr}
-        env = dict(os.environ, J2M_EVIDENCE_DIR=os.path.join(tmp, "ev"))
+        env = dict(os.environ, J2M_EVIDENCE_DIR=os.path.join(tmp, "ev"),
+                   J2M_RULE_CACHE=os.path.join(tempfile.gettempdir(), f"j2m-rulecache-{os.getuid()}"))
         sys.path.insert(0, HERE)
         from sa.props import PROPS
         out = {}
